@@ -144,8 +144,10 @@ class _Sock:
         self.sched.point("send")
         self.sent.append(_proj_sent(bytes(data)))
         self.raw_sent = getattr(self, "raw_sent", []) + [bytes(data)]
-        if self.sched.tid() is not None:      # sends made by the controller thread (connect_peer) are not thread steps
+        if self.sched.tid() is not None:
             self.sched.emit(op="send", p=self.sched.tid(), to=self.peer, m=self.sent[-1])
+        else:                                 # sent by connect_peer itself (our version message): not a reply to a received
+            self.hello = getattr(self, "hello", []) + [self.sent.pop()]      # message, so not part of this property's projection
 
     def close(self):
         self.closed = True
@@ -557,6 +559,16 @@ def _stage_c(ctx):
     ctx.sample({"stage": "C", "script": recs[len(recs) // 2]["script"], "schedule": recs[len(recs) // 2]["schedule"],
                 "events": [e["op"] + str(e.get("p")) for e in recs[len(recs) // 2]["ev"]]})
     _stage_c_connect(ctx)
+    # three peers x one message each: every interleaving (1680 per script with 3 scheduling points per thread)
+    ks3 = ["ping", "inv", "version", "unknown"] if ctx.tier == "quick" else KINDS
+    scripts3 = [mk_script({1: [a], 2: [b], 3: [c]}) for a in ks3 for b in ks3 for c in ks3]
+    if ctx.tier == "quick":
+        scripts3 = scripts3[:: 9]
+    with mp.get_context("fork").Pool(16) as pool:
+        res3 = pool.map(_explore_job, [(s3, 4000, ctx.seed + i) for i, s3 in enumerate(scripts3)], chunksize=1)
+    recs3 = [r for out, _, _ in res3 for r in out]
+    ctx.cov["c18_exploration_3peers"] = {"scripts": len(scripts3), "executions": len(recs3), "scripts_capped": sum(1 for _, _, c in res3 if c)}
+    _validate(ctx, recs3, "Trace_NodeQueue_3.cfg", "Trace_NodeQueue (3 peers x 1 message, exhaustive schedules)")
     # larger scope, sampled: 3 peers x up to 3 messages, seeded random schedules
     import logging
     logging.disable(logging.CRITICAL)
@@ -588,10 +600,12 @@ def _stage_c_connect(ctx):
         okv = first[4:16].rstrip(b"\0") == b"version" and "ok" in parsed and parsed["ok"].get("protocol_version") == rig.node.protocol_version \
             and parsed["ok"].get("addr_recv_port") == 8333 and parsed["ok"].get("start_height") == 0
         if not okv:
-            ctx.violation("connect-version-message-malformed", {"stage": "C", "frame": first.hex(), "parsed": str(parsed)})
+            ctx.extension_mismatch("connect-version-message-malformed", {"stage": "C", "frame": first.hex(), "parsed": str(parsed)})
     finally:
         rig.close()
-    _validate(ctx, recs, "Trace_NodeQueue_conn.cfg", "Trace_NodeQueue (connect_peer handshake, 2 peers, exhaustive schedules)")
+    # the replies and the queue are judged exactly as for directly attached peers (connect_peer's own version message is
+    # kept out of the projection: the property speaks about received messages only)
+    _validate(ctx, recs, "Trace_NodeQueue.cfg", "Trace_NodeQueue (peers attached through connect_peer, 2 peers, exhaustive schedules)")
 
 
 def _binding_selftest(ctx, recs):
